@@ -1005,6 +1005,10 @@ class _ColumnsParsedFmt:
 
         # 1.2. parse width limits
         # It may be either a number or range
+        if width_fmt.endswith(')') and '(' in width_fmt:
+            # "2-5(3)": fmt string reported by a printed table contains actual
+            # width of the column. It is informational only.
+            width_fmt = width_fmt[:width_fmt.rindex('(')].strip()
         if width_fmt == '-1':
             # special value: column object will not be created from it
             result.min_w = -1
